@@ -32,8 +32,28 @@ def single_defs(f):
                     bad.add(n)
             elif x['k'] == 'un' and x['op'] in ('++', '--', '++post', '--post', '&') and strip(x['e']).get('k') == 'var':
                 bad.add(strip(x['e'])['name'])
-    f._sdefs = {n: e for n, e in defs.items() if n not in bad}
+    # not SSA: a definition may only be expanded when the variables it reads keep their value, i.e. are themselves defined
+    # once (or are parameters that are never written); `start = pos` is not expandable, `newsize = size + len` is
+    written = collections_counter = {}
+    for b, i, st in f.stmts():
+        for x in nodes(st):
+            if x['k'] == 'assign' and strip(x['l']).get('k') == 'var':
+                written[strip(x['l'])['name']] = written.get(strip(x['l'])['name'], 0) + 1
+            elif x['k'] == 'un' and x['op'] in ('++', '--', '++post', '--post', '&') and strip(x['e']).get('k') == 'var':
+                written[strip(x['e'])['name']] = written.get(strip(x['e'])['name'], 0) + 2
+            elif x['k'] == 'decl':
+                for v in x['vars']:
+                    if 'init' in v:
+                        written[v['name']] = written.get(v['name'], 0) + 1
+    cand = {n: e for n, e in defs.items() if n not in bad}
+
+    def stable(e):
+        return all(written.get(v['name'], 0) <= (1 if v.get('decl') == 'local' else 0) for v in nodes(e, lambda y: y.get('k') == 'var' and y.get('decl') in ('local', 'param')))
+    f._sdefs = {n: e for n, e in cand.items() if stable(e)}
     return f._sdefs
+
+
+EXPAND = [True]
 
 
 def lin(f, e, depth=0):
@@ -44,7 +64,7 @@ def lin(f, e, depth=0):
     k = e.get('k')
     if k == 'lit':
         return {'': e['v']}
-    if k == 'var' and e.get('decl') == 'local' and depth < 4 and e['name'] in single_defs(f):
+    if k == 'var' and EXPAND[0] and e.get('decl') == 'local' and depth < 4 and e['name'] in single_defs(f):
         r = lin(f, single_defs(f)[e['name']], depth + 1)
         if r is not None:
             return r
@@ -270,3 +290,141 @@ def run(db, res):
                 else:
                     res.unknown('C01.j', key, 'capacity (%s) minus offset minus count = %s is not known to be >= 0' % (why, diff), c['loc'])
     res.floor('C01.j', 'copy call sites', n, 25)
+
+
+READS = {'memchr': [(0, 2)], 'memcmp': [(0, 2), (1, 2)], 'memrchr': [(0, 2)], 'memmem': [(0, 1), (2, 3)], 'strncmp': [(0, 2), (1, 2)], 'strncasecmp': [(0, 2), (1, 2)], 'crc32': [(1, 2)]}
+
+
+def run_reads(db, res):
+    """C01.k - sub-windows stay inside their window: a call that is handed (A + k, n) - libc memchr/memcmp family, or any
+    library function with adjacent (pointer, length) parameters - where A is an array the caller pairs with a length L must
+    have k + n <= L, and an unsigned n of the form L - c must not be able to wrap."""
+    res.rule('C01.k', 'sub-windows stay inside their window: wherever (A + k, n) is handed to memchr / memcmp / ... or to a function with adjacent (pointer, length) parameters and the caller pairs A with a length L, k + n <= L holds and the unsigned count cannot have wrapped (linear forms + zone facts)')
+    n = 0
+    for name, f in sorted(db.fn.items()):
+        if not f.blocks or f.loc.startswith('htp/lzma'):
+            continue
+        pairs = G.pairs_of(f)
+        if not pairs:
+            continue
+        sites = []
+        for b, i, c in f.calls():
+            cal = c.get('callee')
+            if cal in READS:
+                ws = READS[cal]
+            elif cal in db.fn:
+                cp = G.pairs_of(db.fn[cal])
+                pn = [p_['name'] for p_ in db.fn[cal].params]
+                ws = [(pn.index(a_), pn.index(l_)) for a_, l_ in cp.items() if a_ in pn and l_ in pn]
+            else:
+                ws = []
+            for pi, li in ws:
+                if max(pi, li) >= len(c['args']):
+                    continue
+                base, off = split_dst(f, c['args'][pi])
+                if base is None or base.get('k') != 'var' or base['name'] not in pairs:
+                    continue
+                sites.append((b, i, c, pi, li, base['name'], off))
+        if not sites:
+            continue
+        CTX, uns = G.solve(f, db)
+
+        def facts_before(b, i):
+            out = []
+            for key, st0 in CTX.get(b, {}).items():
+                fs = G.Facts(st0)
+                for ii, st in enumerate(f.blocks[b]['stmts']):
+                    if ii == i:
+                        break
+                    G.transfer(fs, st, uns=uns)
+                    for u in uns:
+                        fs.add('0', u, 0)
+                out.append(fs)
+            return [fs for fs in out if not fs.bottom]
+        for b, i, c, pi, li, A, off in sites:
+            n += 1
+            L = pairs[A]
+            cnode = strip(c['args'][li])
+            key = '%s:%s(%s, %s)' % (name, c['callee'], P.K(c['args'][pi])[:30], P.K(cnode)[:30])
+            live = facts_before(b, i)
+            fits, diff, cnt, diffs = False, None, None, []
+            for expand in (False, True):                        # as written first (the zone facts speak about these terms), then with stable locals expanded
+                EXPAND[0] = expand
+                try:
+                    base_, off_ = split_dst(f, c['args'][pi])
+                    cnt = lin(f, cnode)
+                    Llin = (lin(f, {'k': 'var', 'name': L, 'decl': 'local'}) if not L.startswith('*') else None) or {L: 1}
+                finally:
+                    EXPAND[0] = True
+                if cnt is None or off_ is None:
+                    continue
+                diff = sub(Llin, add(off_ or {}, cnt))           # L - k - n >= 0 ?
+                diffs.append(diff)
+                if live and all(nonneg(diff, fs, uns) for fs in live):
+                    fits = True
+                    break
+            if cnt is None or not live:
+                res.unknown('C01.k', key, 'count is not a linear expression (or the call is unreachable for the analysis)', c['loc'])
+                continue
+            # wrap: count written as x - c (unsigned)
+            wrap = None
+            if cnode.get('k') == 'bin' and cnode['op'] == '-' and 'unsigned' in (cnode.get('t') or ''):
+                raw = G.term(cnode)
+                if raw is not None and raw[1] < 0:
+                    lows = [fs.lower(raw[0]) for fs in live]
+                    if all(lo is not None and lo >= -raw[1] for lo in lows):
+                        wrap = 'no'
+                    elif all(lo is not None for lo in lows) and raw[0] != '0':
+                        wrap = ('weak', raw[0], min(lows), -raw[1])
+                    else:
+                        wrap = 'unknown'
+                elif raw is None:
+                    x_, y_ = G.term(cnode['l']), G.term(cnode['r'])
+                    if x_ and y_ and x_[0] != '0' and y_[0] != '0':
+                        d = y_[1] - x_[1]
+                        bnds = [fs.b.get((y_[0], x_[0])) for fs in live]       # y - x <= bnd ; need y + ky <= x + kx
+                        wrap = 'no' if all(bd is not None and bd <= x_[1] - y_[1] for bd in bnds) else 'unknown'
+            if isinstance(wrap, tuple):
+                res.violated('C01.k', key, '%s is called with the count %s, but the guards only give %s >= %d: for %s < %d the unsigned count wraps and the call reads far past the %s bytes at %s' % (c['callee'], S(cnode), wrap[1], wrap[2], wrap[1], wrap[3], L, A), c['loc'])
+            elif fits and wrap in (None, 'no'):
+                res.holds('C01.k', key, 'offset + count <= %s%s' % (L, '' if wrap is None else ' and the count cannot wrap'), c['loc'])
+            else:
+                exact = set(diff) <= {''} and diff.get('', 0) < 0
+                offbyone = False
+                for dv in diffs:
+                    d1 = dict(dv)
+                    d1[''] = d1.get('', 0) + 1
+                    offbyone = offbyone or (bool(live) and all(nonneg(d1, fs, uns) for fs in live))      # the strongest facts are exactly one short
+                if exact and wrap in (None, 'no'):
+                    res.violated('C01.k', key, 'the window handed to %s ends %d byte(s) past %s + %s' % (c['callee'], -diff.get('', 0), A, L), c['loc'])
+                elif offbyone and wrap in (None, 'no'):
+                    res.violated('C01.k', key, 'the window handed to %s can end one byte past %s + %s: the guards give %s - offset - count >= -1 only' % (c['callee'], A, L, L), c['loc'])
+                else:
+                    res.unknown('C01.k', key, '%s - offset - count = %s is not known to be >= 0%s' % (L, diff, ' (the unsigned count may wrap)' if wrap == 'unknown' else ''), c['loc'])
+    res.floor('C01.k', 'sub-window hand-overs on paired arrays', n, 20)
+
+
+def lin_noexpand(e):
+    e = strip(e)
+    if e is None:
+        return None
+    k = e.get('k')
+    if k == 'lit':
+        return {'': e['v']} if e['v'] else {}
+    if k in ('var', 'member') or (k == 'un' and e['op'] == '*'):
+        if 'unsigned' in (e.get('t') or ''):
+            UNSIGNED.add(P.K(e))
+        return {P.K(e): 1}
+    if k == 'bin' and e['op'] in ('+', '-'):
+        l, r = lin_noexpand(e['l']), lin_noexpand(e['r'])
+        if l is None or r is None:
+            return None
+        out = dict(l)
+        for t, c in r.items():
+            out[t] = out.get(t, 0) + (c if e['op'] == '+' else -c)
+        return {t: c for t, c in out.items() if c != 0}
+    return None
+
+
+def lin_noexpand_d(d):
+    return d or {}
